@@ -710,6 +710,43 @@ def _judge_softmax(c):
     return None
 
 
+def _judge_wrapped_reservoirs(tag="0"):
+    """the reservoir reached through its subclass IPReservoir (before any fit: gains a = 1, b = 0) with a feedback connection and activation / fb_activation given
+    BY NAME: every step obeys the documented 'external' law  r' = (1-lr) r + lr (W x + Win u + bias + Wfb g(fb)),  x' = f(r')"""
+    import reservoirpy as rpy
+    rpy.verbosity(0)
+    from reservoirpy.node import Node
+    from reservoirpy.nodes import IPReservoir
+    rs = np.random.RandomState(3)
+    W, Win, Wfb = rs.randint(-4, 5, (3, 3)) / 8.0, rs.randint(-4, 5, (3, 2)) / 4.0, rs.randint(-4, 5, (3, 2)) / 4.0
+    X = rs.randint(-8, 9, (5, 2)) / 4.0
+    for act, fbact in (("tanh", "tanh"), ("sigmoid", "relu")):
+        sc = {"kind": "wrapped-reservoir", "what": "ipreservoir-fb-by-name", "activation": act, "fb_activation": fbact, "tag": tag}
+        try:
+            res = IPReservoir(3, W=W, Win=Win, bias=np.zeros((3, 1)), Wfb=Wfb, lr=0.5, activation=act, fb_activation=fbact, name="wr%s_%s" % (tag, act))
+
+            def init(node, x=None, **kw):
+                node.set_input_dim(x.shape[1]); node.set_output_dim(2)
+            snd = Node(forward=lambda n, x: x[:, :2] * 0.5, initializer=init, name="wr%s_s%s" % (tag, act))
+            res <<= snd
+            m = res >> snd
+            got = m.run(X, return_states=[res.name])[res.name]
+        except Exception as e:  # noqa: BLE001
+            return {"key": "law:ipreservoir:fb_activation-by-name", "what": "IPReservoir(activation=%r, fb_activation=%r) with a feedback connection raises %s: %s "
+                    "(the name given for fb_activation is not resolved to a function)" % (act, fbact, type(e).__name__, e), "scenario": sc, "expected": None, "observed": None}
+        f = np.tanh if act == "tanh" else (lambda v: 1.0 / (1.0 + np.exp(-v)))
+        g = np.tanh if fbact == "tanh" else (lambda v: np.maximum(v, 0.0))
+        x, r, fb = np.zeros(3), np.zeros(3), np.zeros(2)
+        for t, u in enumerate(X):
+            r = 0.5 * r + 0.5 * (W @ x + Win @ u + Wfb @ g(fb))        # IPReservoir integrates the pre-activation (the 'external' equation) ...
+            x = f(r)                                                    # ... and emits f(a r + b) with a = 1, b = 0 before any fit
+            if not np.allclose(got[t], x, rtol=1e-10, atol=1e-12):
+                return {"key": "law:ipreservoir", "what": "IPReservoir (before any fit) with feedback, activation=%r, fb_activation=%r: step %d is not the documented law "
+                        "(max abs error %.3g)" % (act, fbact, t, float(np.max(np.abs(got[t] - x)))), "scenario": sc, "expected": x.tolist(), "observed": np.asarray(got[t]).tolist()}
+            fb = x[:2] * 0.5
+    return None
+
+
 def oracle(ctx, scale=1):
     rng = ctx.rng("oracle")
     N = ctx.n(150, 1500) * scale
@@ -720,12 +757,18 @@ def oracle(ctx, scale=1):
         v = _judge(c)
         if v:
             out.append(v)
-    return {"evaluations": len(cases), "violations": out,
+    v = _judge_wrapped_reservoirs("%d" % ctx.seed)
+    if v:
+        out.append(v)
+    return {"evaluations": len(cases) + 2, "violations": out,
             "rule": "each returned row == (1-lr)*prev + lr*f(W.prev + Win.u + bias [+ Wfb.g(fb)]) (internal) / f of the leaky-integrated "
                     "pre-activation (external) recomputed in numpy from the node's own matrices and the previous observed state, rtol 1e-10 atol 1e-12; "
                     "supplied arrays kept under the bias-column convention; bad Win shapes rejected"}
 
 
 def replay(payload):
+    if payload["scenario"].get("kind") == "wrapped-reservoir":
+        v = _judge_wrapped_reservoirs("rp")
+        return {"violates": bool(v), "detail": v}
     v = _judge(payload["scenario"])
     return {"violates": bool(v), "detail": v}
